@@ -24,5 +24,7 @@ Depth7 == TLCGet("level") <= 8
 Depth6 == TLCGet("level") <= 7
 Depth12 == TLCGet("level") <= 13
 \* each manual override at most once per behaviour would need history; bound by depth instead
+\* transition tour: every transition of the (small) model, printed with the level of its source state
+TourDump == PrintT(<<"EDGE", TLCGet("level"), ToJson([f |-> view, t |-> view', cfg |-> cfg, ev |-> ev'])>>)
 GenPrint == PrintT(<<"GEN", TLCGet("level"), ToJson([cfg |-> cfg, ev |-> ev])>>)
 =============================================================================
